@@ -626,12 +626,25 @@ func isOptionLiteral(fi *FuncInfo) bool {
 				if unparen(r) == ast.Expr(fi.Lit) {
 					found = true
 				}
+				// return wrap(func(x *T) { ... }): the literal is handed to a helper that only calls it from the option
+				// literal it returns (a setter wrapped into an option)
+				if call, ok := unparen(r).(*ast.CallExpr); ok && optionWrapper != nil {
+					for i, a := range call.Args {
+						if unparen(a) == ast.Expr(fi.Lit) && optionWrapper(fi.Parent, call, i) {
+							found = true
+						}
+					}
+				}
 			}
 		}
 		return true
 	})
 	return found
 }
+
+// optionWrapper (set by RunFrozen): is argument i of call handed to a post-baseline helper whose only use of that
+// parameter is calling it inside the function literal the helper returns?
+var optionWrapper func(caller *FuncInfo, call *ast.CallExpr, i int) bool
 
 // heldLock: is the statement at pos inside a region where recv.<mutex> is held (Lock before it in the same
 // function, and either a deferred Unlock or an Unlock after it)?
@@ -742,6 +755,53 @@ func heldLockOrByCallers(c *Ctx, fi *FuncInfo, recv types.Object, mutex string, 
 }
 
 func RunFrozen(c *Ctx) {
+	optionWrapper = func(caller *FuncInfo, call *ast.CallExpr, i int) bool {
+		fn, _ := typeutil.Callee(caller.Pkg.TypesInfo, call).(*types.Func)
+		if fn == nil {
+			return false
+		}
+		var h *FuncInfo
+		for _, g := range c.P.Funcs {
+			if g.Obj == fn.Origin() && g.Lit == nil {
+				h = g
+			}
+		}
+		if h == nil || h.Body == nil || h.Sig == nil || i >= h.Sig.Params().Len() || c.helpers()[h.Obj] == nil {
+			return false
+		}
+		param := h.Sig.Params().At(i)
+		info := h.Pkg.TypesInfo
+		uses, okUses := 0, 0
+		// every use of the parameter is the callee of a call inside a literal that the helper returns
+		ast.Inspect(h.Body, func(n ast.Node) bool {
+			rs, ok := n.(*ast.ReturnStmt)
+			if !ok {
+				return true
+			}
+			for _, r := range rs.Results {
+				lit, ok := unparen(r).(*ast.FuncLit)
+				if !ok {
+					continue
+				}
+				ast.Inspect(lit.Body, func(m ast.Node) bool {
+					if ce, ok := m.(*ast.CallExpr); ok {
+						if id, ok := unparen(ce.Fun).(*ast.Ident); ok && info.Uses[id] == param {
+							okUses++
+						}
+					}
+					return true
+				})
+			}
+			return true
+		})
+		ast.Inspect(h.Body, func(n ast.Node) bool {
+			if id, ok := n.(*ast.Ident); ok && info.Uses[id] == param {
+				uses++
+			}
+			return true
+		})
+		return uses > 0 && uses == okUses
+	}
 	specs := map[string]*frozenSpec{}
 	for i := range frozenTypes {
 		fs := &frozenTypes[i]
